@@ -19,8 +19,8 @@
 (* Reading decisions (DESIGN 9.3): an explicit limit combined with         *)
 (* overshoot may be honoured either strictly or by the nearest boundary;   *)
 (* with ignore_billing_period_gap_for_day_count the day count may start at *)
-(* the requested limit or at the last/first datum, and no gap warning is   *)
-(* demanded (the option's documented purpose, pinned by the repository's   *)
+(* the requested limit or (gap within tolerance) at the last/first datum,  *)
+(* and no gap warning is demanded (the option's documented purpose, pinned by the repository's   *)
 (* own tests); a window whose rows are all null may raise NoData or be     *)
 (* returned.                                                               *)
 (***************************************************************************)
@@ -34,6 +34,9 @@ HasNonNull(in, W) == \E t \in W : ValAt(in, t) = "fin"
 NearestSet(S, t) == LET d == Min({Abs(x - t) : x \in S}) IN {x \in S : Abs(x - t) = d}
 
 IsBase(in) == in.kind = "baseline"
+\* The timeline is in half-days: limits can fall between whole-day distances, while max_days and the overshoot
+\* tolerance are whole days (U units each).
+U == 2
 \* rows on the permitted side of the hard limit (end for baseline, start for reporting)
 Side(in) == IF IsBase(in) THEN {t \in Elems(in.idx) : in.hasEnd => t <= in.endp}
                           ELSE {t \in Elems(in.idx) : in.hasStart => t >= in.startp}
@@ -41,15 +44,20 @@ Side(in) == IF IsBase(in) THEN {t \in Elems(in.idx) : in.hasEnd => t <= in.endp}
 ----------------------------------------------------------------------------
 \* P-layer
 \* the instants max_days may be counted from
+\* With ignore_billing_period_gap_for_day_count the count may start at the last datum before the requested end - but only
+\* while the gap between them is within n_days_billing_period_overshoot (any gap when that is None).  A gap of exactly the
+\* tolerance is accepted either way (the documentation does not say whether the bound is inclusive).
+GapTolerated(in) == ~in.hasNd \/ in.endp - U * in.ndover <= Max(Side(in))
 Anchors(in) ==
   IF IsBase(in)
-  THEN (IF in.hasEnd THEN {in.endp} ELSE {}) \cup (IF in.hasEnd /\ in.ignoregap /\ Side(in) # {} THEN {Max(Side(in))} ELSE {})
+  THEN (IF in.hasEnd THEN {in.endp} ELSE {})
+       \cup (IF in.hasEnd /\ in.ignoregap /\ Side(in) # {} /\ GapTolerated(in) THEN {Max(Side(in))} ELSE {})
   ELSE (IF in.hasStart THEN {in.startp} ELSE {}) \cup (IF in.hasStart /\ in.ignoregap /\ Side(in) # {} THEN {Min(Side(in))} ELSE {})
 \* soft limits (start for baseline, end for reporting); {} means unbounded
 Targets(in) ==
   IF IsBase(in)
-  THEN IF in.hasStart THEN {in.startp} ELSE IF in.hasEnd /\ in.hasMax THEN {a - in.maxd : a \in Anchors(in)} ELSE {}
-  ELSE IF in.hasEnd THEN {in.endp} ELSE IF in.hasStart /\ in.hasMax THEN {a + in.maxd : a \in Anchors(in)} ELSE {}
+  THEN IF in.hasStart THEN {in.startp} ELSE IF in.hasEnd /\ in.hasMax THEN {a - U * in.maxd : a \in Anchors(in)} ELSE {}
+  ELSE IF in.hasEnd THEN {in.endp} ELSE IF in.hasStart /\ in.hasMax THEN {a + U * in.maxd : a \in Anchors(in)} ELSE {}
 Cut(in, lim) == IF IsBase(in) THEN {t \in Side(in) : t >= lim} ELSE {t \in Side(in) : t <= lim}
 WindowsFor(in, tg) ==
   IF ~in.overshoot THEN {Cut(in, tg)}
@@ -96,10 +104,10 @@ IBaseline(in) ==
   IF side = {} THEN IErr("nodata")
   ELSE
   LET dataEnd   == Max(side)
-      moved     == in.ignoregap /\ (~in.hasNd \/ ~in.hasEnd \/ in.endp - in.ndover < dataEnd)
+      moved     == in.ignoregap /\ (~in.hasNd \/ ~in.hasEnd \/ in.endp - U * in.ndover < dataEnd)
       endLimit  == IF moved \/ ~in.hasEnd THEN dataEnd ELSE in.endp       \* when end is None only warnings would see it
       hasTarget == (in.hasEnd /\ in.hasMax) \/ in.hasStart
-      target    == IF in.hasEnd /\ in.hasMax THEN endLimit - in.maxd ELSE in.startp
+      target    == IF in.hasEnd /\ in.hasMax THEN endLimit - U * in.maxd ELSE in.startp
       startLim  == IF in.overshoot THEN (IF hasTarget THEN NearestCode(side, target) ELSE Min(side)) ELSE target
       W         == IF in.overshoot \/ hasTarget THEN {t \in side : t >= startLim} ELSE side
       warns     == (IF in.hasEnd /\ Max(Elems(in.idx)) < endLimit THEN {"gap_end"} ELSE {})
@@ -112,7 +120,7 @@ IReporting(in) ==
   ELSE
   LET startLim  == IF in.ignoregap \/ ~in.hasStart THEN Min(side) ELSE in.startp
       hasTarget == (in.hasStart /\ in.hasMax) \/ in.hasEnd
-      target    == IF in.hasStart /\ in.hasMax THEN startLim + in.maxd ELSE in.endp
+      target    == IF in.hasStart /\ in.hasMax THEN startLim + U * in.maxd ELSE in.endp
       endLim    == IF in.overshoot THEN (IF hasTarget THEN NearestCode(side, target) ELSE Max(side)) ELSE target
       W         == IF in.overshoot \/ hasTarget THEN {t \in side : t <= endLim} ELSE side
       warns     == (IF in.hasEnd /\ Max(Elems(in.idx)) < endLim THEN {"gap_end"} ELSE {})
